@@ -1,5 +1,5 @@
 """C03 - betting follows the rules (lock-step product with an independent reference)."""
-from itertools import product
+from itertools import product, permutations
 
 from .. import sx, configs as C
 from ..explore import ErrorsMonitor
@@ -81,6 +81,20 @@ def jobs(tier, seed):
     for stacks in [(2, 9), (9, 2), (2, 2), (2, 9, 9), (9, 2, 9), (9, 9, 2), (2, 2, 2), (3, 2, 9), (5, 3, 2)]:
         for game in ('FixedLimitSevenCardStud', 'FixedLimitRazz'):
             out.append(_j('stud-partial-bring-in', C.stud(stacks, game=game, antes=1, bring_in=2, small=4, big=8), dev_bound=3))
+    # stud streets open on the cards showing: every assignment of a strong / middling / weak board to the three seats x
+    # every seat being the one who is all-in from third street on (the designee may be unable to act, the turn then
+    # passes clockwise from HIM, not to the best board among those with chips)
+    boards = [('Ah', 'Ad'), ('Kh', 'Kd'), ('2h', '3d')]
+    downs = ['5c', '6c', '7c', '8c', '9c', 'Tc']
+    for perm in permutations(range(3)):
+        plan = []
+        for i in range(3):
+            plan += [downs[2 * i], downs[2 * i + 1], boards[perm[i]][0]]
+        plan += ['4s'] + [boards[perm[i]][1] for i in range(3)]
+        for short in range(3):
+            stacks = tuple(2 if i == short else 9 for i in range(3))
+            for game in ('FixedLimitSevenCardStud', 'FixedLimitRazz'):
+                out.append(_j('stud-boards-with-all-in', C.stud(stacks, game=game, plan=plan), dev_bound=2 if not th else 4))
     for stacks in []:
         pass
         out.append(_j('ND27', C.nt(stacks, game='NoLimitDeuceToSevenLowballSingleDraw'), dev_bound=3))
@@ -98,7 +112,7 @@ def run_job(job):
 def sanity(agg, counters, fam, tier):
     msgs = []
     for k in ('states_after_short_all_in', 'cap_reached_states', 'all_in_for_less_states', 'raise_refused_states',
-              'undetermined_amounts'):
+              'undetermined_amounts', 'card_openers_from_reference', 'card_designee_all_in_with_betting_left'):
         if not counters.get(k):
             msgs.append(f'{k} == 0')
     return msgs
